@@ -242,20 +242,57 @@ pub struct CliRun {
 
 /// `renderer`: "json" (reports) or "pretty" (summary line)
 pub fn run_cli(sc: &Scenario, renderer: &str) -> Observation {
-    let mut obs = Observation::default();
+    if sc.partner.is_some() {
+        return run_duo(sc, renderer);
+    }
     let root = match tempfile::Builder::new().prefix("vc.").tempdir_in(scratch_root()) {
         Ok(r) => r,
         Err(e) => {
-            obs.harness_error = Some(format!("scratch dir: {}", e));
-            return obs;
+            return Observation { harness_error: Some(format!("scratch dir: {}", e)), ..Default::default() };
         }
     };
     let rootp = root.path().to_path_buf();
-    let doc_root = rootp.join("docs");
     // (a function of the scenario: every third one has blanks and a quote in these names)
     let odd_names = sc.sim.seed % 3 == 0;
     let tmp_root = rootp.join(if odd_names { "t m'p" } else { "tmp" });
     let work = rootp.join(if odd_names { "wo rk" } else { "work" });
+    let mut prep = match prepare(sc, renderer, &rootp, "s", &tmp_root, &work) {
+        Ok(p) => p,
+        Err(obs) => return obs,
+    };
+    let ended = spawn_and_wait(&mut prep);
+    let obs = finish(sc, renderer, prep, ended);
+    drop(root);
+    obs
+}
+
+/// everything that is set up before the scrut process is started
+pub struct Prepared {
+    pub obs: Observation,
+    pub cmd: Command,
+    pub info: CliInfo,
+    pub sim: SimScenario,
+    pub log_path: PathBuf,
+}
+
+/// how the scrut process ended and what it wrote
+pub struct Ended {
+    pub status: std::io::Result<std::process::ExitStatus>,
+    pub stdout: Vec<u8>,
+    pub stderr: String,
+    pub watchdog: bool,
+}
+
+/// `rootp`: this process' private directory (documents, scenario, log); `tmp_root` / `work`: its
+/// $TMPDIR and --work-directory (shared with the other process in a duo run)
+/// `tag`: "s" alone, "a" / "b" in a duo run (same length, so that every path scrut sees is as long as
+/// when the scenario runs alone)
+fn prepare(sc: &Scenario, renderer: &str, rootp: &Path, tag: &str, tmp_root: &Path, work: &Path) -> Result<Prepared, Observation> {
+    let mut obs = Observation::default();
+    let rootp = rootp.to_path_buf();
+    let tmp_root = tmp_root.to_path_buf();
+    let work = work.to_path_buf();
+    let doc_root = rootp.join(format!("doc{}", tag));
     let _ = std::fs::create_dir_all(&doc_root);
     let _ = std::fs::create_dir_all(&tmp_root);
     if sc.cli.work_directory {
@@ -305,7 +342,7 @@ pub fn run_cli(sc: &Scenario, renderer: &str) -> Observation {
         }
         if let Err(e) = std::fs::write(&p, text) {
             obs.harness_error = Some(format!("write {}: {}", p.display(), e));
-            return obs;
+            return Err(obs);
         }
         info.dollar_line.extend(at);
         // (scrut is started in doc_root)
@@ -323,11 +360,11 @@ pub fn run_cli(sc: &Scenario, renderer: &str) -> Observation {
             .replace("$TMP", &info.tmp_root)
             .replace("$WORK", &work.to_string_lossy());
     }
-    let sim_path = rootp.join("scenario.json");
-    let log_path = rootp.join("log.jsonl");
+    let sim_path = rootp.join(format!("scenario-{}.json", tag));
+    let log_path = rootp.join(format!("log-{}.jsonl", tag));
     if let Err(e) = std::fs::write(&sim_path, serde_json::to_string(&sim).unwrap()) {
         obs.harness_error = Some(format!("write scenario: {}", e));
-        return obs;
+        return Err(obs);
     }
     // command line
     let update = sc.cli.command.is_some();
@@ -450,18 +487,21 @@ pub fn run_cli(sc: &Scenario, renderer: &str) -> Observation {
         .stdin(Stdio::null())
         .stdout(Stdio::piped())
         .stderr(Stdio::piped());
-    let child = cmd.spawn();
-    let mut child = match child {
-        Ok(c) => c,
-        Err(e) => {
-            obs.harness_error = Some(format!("cannot start {}: {}", scrut_bin().display(), e));
-            return obs;
-        }
-    };
+    Ok(Prepared { obs, cmd, info, sim, log_path })
+}
+
+pub struct Running {
+    child: std::process::Child,
+    th_err: std::thread::JoinHandle<String>,
+    th_out: std::thread::JoinHandle<Vec<u8>>,
+}
+
+fn start(prep: &mut Prepared) -> Result<Running, String> {
+    let mut child = prep.cmd.spawn().map_err(|e| format!("cannot start {}: {}", scrut_bin().display(), e))?;
     // read both streams without deadlock
     let mut so = child.stdout.take().unwrap();
     let mut se = child.stderr.take().unwrap();
-    let th = std::thread::spawn(move || {
+    let th_err = std::thread::spawn(move || {
         let mut s = String::new();
         let mut b = vec![];
         let _ = se.read_to_end(&mut b);
@@ -473,27 +513,49 @@ pub fn run_cli(sc: &Scenario, renderer: &str) -> Observation {
         let _ = so.read_to_end(&mut b);
         b
     });
+    Ok(Running { child, th_err, th_out })
+}
+
+fn wait_end(mut r: Running, limit_s: u64) -> Ended {
     // wall-clock watchdog: inside the simulation nothing can take long; a scrut that spins
     // outside of it must not hang the check
     let started = std::time::Instant::now();
+    let mut watchdog = false;
     let status = loop {
-        match child.try_wait() {
+        match r.child.try_wait() {
             Ok(Some(s)) => break Ok(s),
             Ok(None) => {
-                if started.elapsed() > std::time::Duration::from_secs(180) {
-                    let _ = child.kill();
-                    obs.harness_error = Some("the scrut process did not end within 180 s of wall time".into());
-                    break child.wait();
+                if started.elapsed() > std::time::Duration::from_secs(limit_s) {
+                    let _ = r.child.kill();
+                    watchdog = true;
+                    break r.child.wait();
                 }
                 std::thread::sleep(std::time::Duration::from_millis(2));
             }
             Err(e) => break Err(e),
         }
     };
-    let outb = th_out.join().unwrap_or_default();
-    obs.stderr = th.join().unwrap_or_default();
-    obs.stdout = String::from_utf8_lossy(&outb).into_owned();
-    match status {
+    let stdout = r.th_out.join().unwrap_or_default();
+    let stderr = r.th_err.join().unwrap_or_default();
+    Ended { status, stdout, stderr, watchdog }
+}
+
+fn spawn_and_wait(prep: &mut Prepared) -> Ended {
+    match start(prep) {
+        Ok(r) => wait_end(r, 180),
+        Err(e) => Ended { status: Err(std::io::Error::new(std::io::ErrorKind::Other, e)), stdout: vec![], stderr: String::new(), watchdog: false },
+    }
+}
+
+fn finish(sc: &Scenario, renderer: &str, prep: Prepared, ended: Ended) -> Observation {
+    let Prepared { mut obs, info, sim, log_path, .. } = prep;
+    let update = sc.cli.command.is_some();
+    if ended.watchdog {
+        obs.harness_error = Some("the scrut process did not end within 180 s of wall time".into());
+    }
+    obs.stderr = ended.stderr;
+    obs.stdout = String::from_utf8_lossy(&ended.stdout).into_owned();
+    match ended.status {
         Ok(s) => {
             obs.exit_status = s.code();
             #[cfg(unix)]
@@ -503,7 +565,7 @@ pub fn run_cli(sc: &Scenario, renderer: &str) -> Observation {
             }
         }
         Err(e) => {
-            obs.harness_error = Some(format!("wait: {}", e));
+            obs.harness_error = Some(format!("start / wait: {}", e));
         }
     }
     if obs.exit_status == Some(98) {
@@ -644,6 +706,214 @@ pub fn run_cli(sc: &Scenario, renderer: &str) -> Observation {
         }
     }
     obs.cli = Some(info);
+    obs
+}
+
+// ------------------------------------------------------------------ duo runs: two scrut processes at the same time
+
+/// splitmix64: the interleaving of a duo run is drawn from the scenario's seed
+fn mix(x: &mut u64) -> u64 {
+    *x = x.wrapping_add(0x9e3779b97f4a7c15);
+    let mut z = *x;
+    z = (z ^ (z >> 30)).wrapping_mul(0xbf58476d1ce4e5b9);
+    z = (z ^ (z >> 27)).wrapping_mul(0x94d049bb133111eb);
+    z ^ (z >> 31)
+}
+
+/// one line (without the line break) from a process that announces a turn point; None = it
+/// closed the connection, i.e. it has ended (or is about to)
+fn read_label(s: &mut std::os::unix::net::UnixStream) -> std::io::Result<Option<String>> {
+    let mut line = vec![];
+    let mut b = [0u8; 1];
+    loop {
+        match s.read(&mut b) {
+            Ok(0) => return Ok(None),
+            Ok(_) => {
+                if b[0] == b'\n' {
+                    return Ok(Some(String::from_utf8_lossy(&line).into_owned()));
+                }
+                line.push(b[0]);
+            }
+            Err(e) if e.kind() == std::io::ErrorKind::Interrupted => {}
+            Err(e) => return Err(e),
+        }
+    }
+}
+
+/// Two hooked scrut processes, each with its own scenario (its own simulated children, clock and
+/// faults), run at the same time on ONE temporary root (and one --work-directory when both use
+/// it). Each announces the points at which it is about to touch the shared file system (start,
+/// every creation of a directory or temporary file, every spawn, the end of `main`) and waits;
+/// the harness lets exactly one of them go on at a time, so the interleaving is its decision:
+/// drawn from the seed, recorded in `turns`, and replayed exactly. Both scenarios are also run
+/// alone first; the observation returned is the main scenario's next to its partner.
+fn run_duo(sc: &Scenario, renderer: &str) -> Observation {
+    use std::io::Write;
+    let partner: &Scenario = sc.partner.as_ref().unwrap();
+    let mut alone = sc.clone();
+    alone.partner = None;
+    alone.turns = None;
+    let solo = run_cli(&alone, renderer);
+    let partner_solo = run_cli(partner, renderer);
+    let fail = |msg: String| Observation { harness_error: Some(msg), ..Default::default() };
+    if let Some(e) = solo.harness_error.as_ref().or(partner_solo.harness_error.as_ref()) {
+        return fail(format!("duo: solo run: {}", e));
+    }
+    let root = match tempfile::Builder::new().prefix("vc.").tempdir_in(scratch_root()) {
+        Ok(r) => r,
+        Err(e) => return fail(format!("scratch dir: {}", e)),
+    };
+    let rootp = root.path().to_path_buf();
+    let odd_names = sc.sim.seed % 3 == 0;
+    let tmp_root = rootp.join(if odd_names { "t m'p" } else { "tmp" });
+    let work = rootp.join(if odd_names { "wo rk" } else { "work" });
+    let scs = [&alone, partner];
+    let mut preps = vec![];
+    let mut listeners = vec![];
+    for (i, s) in scs.iter().enumerate() {
+        let tag = ["a", "b"][i];
+        let mut p = match prepare(s, renderer, &rootp, tag, &tmp_root, &work) {
+            Ok(p) => p,
+            Err(o) => return o,
+        };
+        let sock = rootp.join(format!("turn-{}.sock", tag));
+        let l = match std::os::unix::net::UnixListener::bind(&sock) {
+            Ok(l) => l,
+            Err(e) => return fail(format!("duo: bind {}: {}", sock.display(), e)),
+        };
+        let _ = l.set_nonblocking(true);
+        p.cmd.env("SCRUT_VERIF_TURN", &sock);
+        preps.push(p);
+        listeners.push(l);
+    }
+    // start both; each parks at its first turn point (first statement of main) at the latest
+    let mut running = vec![];
+    for p in preps.iter_mut() {
+        match start(p) {
+            Ok(r) => running.push(Some(r)),
+            Err(e) => return fail(format!("duo: {}", e)),
+        }
+    }
+    let wall = std::time::Instant::now();
+    let mut conns: Vec<Option<std::os::unix::net::UnixStream>> = vec![None, None];
+    // parked[i]: the point process i has announced and waits at; None while it has not (yet)
+    let mut parked: Vec<Option<String>> = vec![None, None];
+    let mut ended = [false, false];
+    for i in 0..2 {
+        loop {
+            match listeners[i].accept() {
+                Ok((c, _)) => {
+                    let _ = c.set_nonblocking(false);
+                    let _ = c.set_read_timeout(Some(std::time::Duration::from_secs(180)));
+                    conns[i] = Some(c);
+                    break;
+                }
+                Err(e) if e.kind() == std::io::ErrorKind::WouldBlock => {
+                    // (a process that ends before it ever connects - simulator could not start)
+                    if let Some(r) = running[i].as_mut() {
+                        if let Ok(Some(_)) = r.child.try_wait() {
+                            ended[i] = true;
+                            break;
+                        }
+                    }
+                    if wall.elapsed() > std::time::Duration::from_secs(60) {
+                        return fail("duo: a process did not reach its first turn point within 60 s".into());
+                    }
+                    std::thread::sleep(std::time::Duration::from_millis(1));
+                }
+                Err(e) => return fail(format!("duo: accept: {}", e)),
+            }
+        }
+        if let Some(c) = conns[i].as_mut() {
+            match read_label(c) {
+                Ok(Some(l)) => parked[i] = Some(l),
+                Ok(None) => ended[i] = true,
+                Err(e) => return fail(format!("duo: first turn point: {}", e)),
+            }
+        }
+    }
+    let mut rng = sc.sim.seed ^ 0xd00d_u64;
+    // (how sticky the scheduler is varies per run: long bursts and fine alternation both occur)
+    let stick = [20u64, 50, 80][(mix(&mut rng) % 3) as usize];
+    let mut taken: Vec<u8> = vec![];
+    let mut labels: Vec<String> = vec![];
+    let mut switches = 0u32;
+    let mut last: Option<u8> = None;
+    let mut results: Vec<Option<Ended>> = vec![None, None];
+    loop {
+        // a process that has ended is collected before anything else moves
+        for i in 0..2 {
+            if ended[i] && results[i].is_none() {
+                if let Some(r) = running[i].take() {
+                    results[i] = Some(wait_end(r, 180));
+                }
+            }
+        }
+        let can: Vec<u8> = (0..2u8).filter(|&i| parked[i as usize].is_some() && !ended[i as usize]).collect();
+        if can.is_empty() {
+            break;
+        }
+        let k = taken.len();
+        let pick = match &sc.turns {
+            Some(t) => match t.get(k) {
+                Some(&w) if can.contains(&w) => w,
+                _ => can[0],
+            },
+            None => {
+                let r = mix(&mut rng);
+                match last {
+                    Some(l) if can.contains(&l) && r % 100 < stick => l,
+                    _ => can[(r >> 8) as usize % can.len()],
+                }
+            }
+        };
+        if last.is_some() && last != Some(pick) {
+            switches += 1;
+        }
+        last = Some(pick);
+        taken.push(pick);
+        let i = pick as usize;
+        labels.push(format!("{}:{}", ["a", "b"][i], parked[i].take().unwrap_or_default()));
+        let c = conns[i].as_mut().unwrap();
+        if c.write_all(b"g").is_err() {
+            ended[i] = true;
+            continue;
+        }
+        match read_label(c) {
+            Ok(Some(l)) => parked[i] = Some(l),
+            Ok(None) => ended[i] = true,
+            Err(e) => {
+                // (read timeout: the process neither announced a point nor ended)
+                if let Some(mut r) = running[i].take() {
+                    let _ = r.child.kill();
+                    let _ = wait_end(r, 5);
+                }
+                if let Some(mut r) = running[1 - i].take() {
+                    let _ = r.child.kill();
+                    let _ = wait_end(r, 5);
+                }
+                return fail(format!("duo: process {} stuck after {:?}: {}", i, labels.last(), e));
+            }
+        }
+    }
+    drop(conns);
+    let mut obs_pair = vec![];
+    for (i, p) in preps.into_iter().enumerate() {
+        let e = match results[i].take() {
+            Some(e) => e,
+            None => match running[i].take() {
+                Some(r) => wait_end(r, 180),
+                None => return fail("duo: lost a process".into()),
+            },
+        };
+        obs_pair.push(finish(scs[i], renderer, p, e));
+    }
+    let partner_obs = obs_pair.pop().unwrap();
+    let mut obs = obs_pair.pop().unwrap();
+    if let Some(e) = &partner_obs.harness_error {
+        obs.harness_error = Some(format!("duo: partner: {}", e));
+    }
+    obs.duo = Some(Box::new(DuoObs { partner: partner_obs, solo, partner_solo, turns: taken, labels, switches }));
     drop(root);
     obs
 }
